@@ -309,13 +309,30 @@ Proof.
   vm_compute. split; eexists; split; reflexivity.
 Qed.
 
-(* still open (known findings D5, D7): on the repaired code a double claim can stay
-   unreported, so "bad membership => not ready" is not a theorem of the model *)
+(* D5 (round 5): after the claimed child h2 was deleted, a second claimer h3 was accepted
+   without error; now addChild sees that h1 still lists h2 and refuses *)
+Lemma d5_second_claimer_refuted :
+  let s := snd (run (mkEnv [] []) [EUpd (mkObj 1 2 [MHyper 2]); EUpd (mkObj 2 1 []); EDel 2;
+                                   EUpd (mkObj 4 1 [])])%positive in
+  let s3 := set_hn s (aset 3%positive (mkInfo 2 [MHyper 2%positive] None [] false) (s_hn s)) in
+  snd (add_child_prefix s3 3 2) = false /\ add_child s3 3 2 = (s3, true).
+Proof. vm_compute. split; reflexivity. Qed.
+
+(* D2a (round 5): a node deleted from the cluster stayed in the leaf set of a HyperNode that
+   selects its nodes by label (the label of a deleted node cannot be looked up) *)
+Lemma d2a_label_leaf_stale_refuted :
+  let e := mkEnv [1%positive] [(1%positive, [1%positive])] in
+  let evs := [EUpd (mkObj 1 1 [MSel true 1]); ENodeDel 1]%positive in
+  real_get (snd (run_round4 e evs)) 1 = [1%positive] /\ real_get (snd (run e evs)) 1 = [].
+Proof. vm_compute. split; reflexivity. Qed.
+
+(* still open (known finding D7): on the repaired code a bad membership can stay unreported
+   when the claimer's tier is not above the member's *)
 Lemma bad_membership_not_ready_refuted : exists evs,
-  let objs := [mkObj 1 2 [MHyper 2]; mkObj 3 2 [MHyper 2]]%positive in
+  let objs := [mkObj 1 1 [MHyper 2]; mkObj 2 1 [MHyper 1]]%positive in
   bad_membership objs = true /\ s_ready (snd (run (mkEnv [] []) evs)) = true.
 Proof.
-  exists [EUpd (mkObj 1 2 [MHyper 2]); EUpd (mkObj 2 1 []); EDel 2; EUpd (mkObj 3 2 [MHyper 2])]%positive.
+  exists [EUpd (mkObj 1 1 [MHyper 2]); EDel 2; EUpd (mkObj 2 1 [MHyper 1])]%positive.
   vm_compute. split; reflexivity.
 Qed.
 
@@ -326,11 +343,11 @@ Lemma rebuild_all_err e : forall l a,
   snd (fold_left (fun (acc : st * bool) k => let '(s0, e0) := acc in
          if (e0 : bool) then acc else
          let '(s1, e1) := rebuild_cache e s0 k in
-         if (e1 : bool) then (mark_failed 2 s1 k, true) else (unfail 2 s1 k, false)) l a) = true ->
+         if (e1 : bool) then (mark_failed 3 s1 k, true) else (unfail 3 s1 k, false)) l a) = true ->
   s_ready (fst (fold_left (fun (acc : st * bool) k => let '(s0, e0) := acc in
          if (e0 : bool) then acc else
          let '(s1, e1) := rebuild_cache e s0 k in
-         if (e1 : bool) then (mark_failed 2 s1 k, true) else (unfail 2 s1 k, false)) l a)) = false.
+         if (e1 : bool) then (mark_failed 3 s1 k, true) else (unfail 3 s1 k, false)) l a)) = false.
 Proof.
   induction l as [|k l IH]; intros a Ha; simpl; [exact Ha|].
   apply IH. destruct a as [s2 e2]. destruct e2; [exact Ha|].
@@ -340,9 +357,9 @@ Qed.
 Lemma freed_loop_err e nm : forall l a,
   (snd a = true -> s_ready (fst a) = false) ->
   snd (fold_left (fun (acc : st * bool) fr => let '(s0, e0) := acc in
-         if (e0 : bool) then acc else rebuild_all 2 e s0 (claimers (s_hn s0) fr nm)) l a) = true ->
+         if (e0 : bool) then acc else rebuild_all 3 e s0 (claimers (s_hn s0) fr nm)) l a) = true ->
   s_ready (fst (fold_left (fun (acc : st * bool) fr => let '(s0, e0) := acc in
-         if (e0 : bool) then acc else rebuild_all 2 e s0 (claimers (s_hn s0) fr nm)) l a)) = false.
+         if (e0 : bool) then acc else rebuild_all 3 e s0 (claimers (s_hn s0) fr nm)) l a)) = false.
 Proof.
   induction l as [|x l IH]; intros a Ha; simpl; [exact Ha|].
   apply IH. destruct a as [s0 e0]. destruct e0; [exact Ha|].
@@ -358,7 +375,7 @@ Proof.
   match type of H with (let '(_, _) := ?c in _) = _ => destruct c as [s4 err] end.
   destruct err.
   - inversion H; subst. reflexivity.
-  - pose proof (freed_loop_err e (o_name o) freed (unfail 2 s4 (o_name o), false)
+  - pose proof (freed_loop_err e (o_name o) freed (unfail 3 s4 (o_name o), false)
                   ltac:(simpl; discriminate)) as G.
     match type of H with (let '(_, _) := ?c in _) = _ => set (r := c) in H end.
     change (snd r = true -> s_ready (fst r) = false) in G.
@@ -383,6 +400,6 @@ Lemma add_child_second_parent_errors : forall s parent c i p,
   aget c (s_hn s) = Some i -> i_parent i = Some p -> p <> parent ->
   add_child s parent c = (s, true).
 Proof.
-  intros s parent c i p Hc Hp Hne. unfold add_child. rewrite Hc. rewrite Hc, Hp.
+  intros s parent c i p Hc Hp Hne. unfold add_child. rewrite Hc. unfold add_child_prefix. rewrite Hc. rewrite Hc, Hp.
   destruct (Pos.eqb p parent) eqn:E; [apply Pos.eqb_eq in E; contradiction|reflexivity].
 Qed.
